@@ -789,7 +789,11 @@ impl Runner {
                 let risk_with = self.w.risk_metas(&usr.accts[0], Some(self.w.banks[bi].key), None);
                 let had = self.snap.accts.get(&usr.accts[0]).map(|s| s.positions.iter().any(|p| p.bank == self.w.banks[bi].key)).unwrap_or(false);
                 let mut ixs = vec![self.w.ix_start_flashloan(usr.accts[0], usr.auth, if *repay { 3 } else { 2 }), self.w.ix_borrow_with(usr.accts[0], usr.auth, bi, usr.tokens[bi], a, vec![])];
-                if *repay {
+                if a == 0 {
+                    // an empty bracket: just start and end (what a disabled / frozen account must not be able to do)
+                    st.bank = None;
+                    ixs = vec![self.w.ix_start_flashloan(usr.accts[0], usr.auth, 1), self.w.ix_end_flashloan(usr.accts[0], usr.auth, self.w.risk_metas(&usr.accts[0], None, None))];
+                } else if *repay {
                     ixs.push(self.w.ix_repay(usr.accts[0], usr.auth, bi, usr.tokens[bi], 0, Some(true)));
                     let risk_end = if had { risk_with.clone() } else { self.w.risk_metas(&usr.accts[0], None, None) };
                     ixs.push(self.w.ix_end_flashloan(usr.accts[0], usr.auth, risk_end));
@@ -1033,6 +1037,39 @@ impl Runner {
             }
         }
         st
+    }
+
+    /// What-if probes for an account that has just become disabled (bankrupt or migrated): on clones of the store
+    /// its authority tries a deposit, a withdrawal, a borrow, a repayment and an empty flash-loan bracket.
+    /// Returns the names of the attempts the program accepted (must be none).
+    pub fn probe_disabled_account(&self, acct: &Pubkey) -> Vec<&'static str> {
+        let mut accepted = vec![];
+        let Some(ui) = self.w.users.iter().position(|u| u.accts.contains(acct)) else { return accepted };
+        let usr = self.w.users[ui].clone();
+        let a = read_macct(&self.w.vm, acct);
+        let held: Vec<usize> = a.map(|a| a.lending_account.balances.iter().filter(|b| b.active != 0).filter_map(|b| self.w.bank_index(&b.bank_pk)).collect()).unwrap_or_default();
+        let b0 = held.first().copied().unwrap_or(0);
+        let mut tries: Vec<(&'static str, Vec<Instruction>)> = vec![
+            ("deposit", vec![self.w.ix_deposit(*acct, usr.auth, b0, usr.tokens[b0], 1000, None)]),
+            ("withdraw", vec![self.w.ix_withdraw(*acct, usr.auth, b0, usr.tokens[b0], 1, None)]),
+            ("borrow", vec![self.w.ix_borrow(*acct, usr.auth, b0, usr.tokens[b0], 1)]),
+            ("repay", vec![self.w.ix_repay(*acct, usr.auth, b0, usr.tokens[b0], 1, None)]),
+            ("flashloan", vec![self.w.ix_start_flashloan(*acct, usr.auth, 1), self.w.ix_end_flashloan(*acct, usr.auth, self.w.risk_metas(acct, None, None))]),
+        ];
+        for bi in held.iter().skip(1).take(2) {
+            tries.push(("withdraw", vec![self.w.ix_withdraw(*acct, usr.auth, *bi, usr.tokens[*bi], 1, None)]));
+            tries.push(("repay", vec![self.w.ix_repay(*acct, usr.auth, *bi, usr.tokens[*bi], 1, None)]));
+        }
+        for (name, ixs) in tries {
+            let mut vm = self.w.vm.clone();
+            let r = vm.exec_tx(&ixs);
+            // the flash-loan START itself must be refused: a bracket that only fails at a later instruction counts
+            let start_accepted = name == "flashloan" && r.err.as_ref().map(|(i, _)| *i >= 1).unwrap_or(false);
+            if r.ok || start_accepted {
+                accepted.push(name);
+            }
+        }
+        accepted
     }
 
     /// take the post-step snapshot (call after the monitors have seen `self.snap` as pre-state)
